@@ -25,7 +25,7 @@ CLAIMED = {
  'C10': dict(cat='other', ref='DESIGN.md §4 C10',
    text='Ownership obligations over process1*: the subtree returned by a reference look-up (borrowed from the stored documents) is never passed to merge as a source or destination without a copy, so a $merge cannot change the subtree it refers to, cannot create self-containing structures and cannot make the result depend on evaluation order; matchS including the placeholder rule is proved for match/matchMap.',
    note='The look-up functions (getPath, getCrossDoc, getPathFromString/List) and the dispatch (what $merge/$replace evaluate to) have no functional contracts yet - not claimed; in-place evaluation of the host map by process1 is a documented design decision (mode inplace) and is not flagged.'),
- 'C11': dict(cat='proof', ref='DESIGN.md §4 C11',
+ 'C11': dict(cat='other', ref='DESIGN.md §4 C11',
    text='findOutputs/findOutputsMap/findOutputsList are proved to return stripF(obj) and selF(obj) (selection order: map first, children by ascending key; list children then the list), filterOutput* to return hideF(obj), and outputDocument to return exactly emitF(candidates) with the root fallback and per-candidate hiding, for all trees; specs written from the property statement.',
    note='Stated for trees in which no list holds a map carrying $output together with other keys (the code rejects those with "extra keys" - recorded as finding F15 in DESIGN.md; the error behaviour itself is proved); sortedMap is modelled by its assumed contract (ascending keys, each once); stripF/hideF/finF/selF are characterised by one defining axiom each.'),
  'C04': dict(cat='other', ref='DESIGN.md §4 C04',
